@@ -346,8 +346,10 @@ func callHandler(h handler.Handler6, wire []byte) (inner *dhcpv6.Message, objAns
 	if res == nil {
 		return innerMsg, nil, nil, false, core.Violate("C08/no-answer", "handler returned nil (stop=%v) for a message with a client id and %d IA_PD", stop, len(innerMsg.Options.IAPD()))
 	}
+	var stopped *core.Violation
 	if stop {
-		return innerMsg, nil, nil, false, core.Violate("C08/stops-chain", "handler stopped the chain")
+		// reported below, together with what the response carries (C09 looks at it first)
+		stopped = core.Violate("C08/stops-chain", "handler stopped the chain")
 	}
 	rm, ok := res.(*dhcpv6.Message)
 	if !ok {
@@ -364,7 +366,7 @@ func callHandler(h handler.Handler6, wire []byte) (inner *dhcpv6.Message, objAns
 	for _, ia := range bm.Options.IAPD() {
 		wireAns = append(wireAns, iapdAnswer{iaid: ia.IaId, prefixes: ia.Options.Prefixes(), status: ia.Options.Status()})
 	}
-	return innerMsg, objAns, wireAns, false, nil
+	return innerMsg, objAns, wireAns, false, stopped
 }
 
 // validate checks the C08 predicates of one reply and returns the delegated
@@ -534,14 +536,31 @@ func Exec(c Case) (res core.Result) {
 		if skipped {
 			continue
 		}
+		// a reply that C08 objects to because IA_PDs go unanswered (chain stopped, no reply, IA_PDs
+		// missing): C09 has its look first, for an IA_PD that renews a held prefix and gets no
+		// answer is its business
+		var pending *core.Violation
+		unanswered := func(v *core.Violation) bool {
+			return c.Mode == "C09" && (v.Signature == "C08/stops-chain" || v.Signature == "C08/no-answer" || v.Signature == "C08/iapd-correspondence")
+		}
 		if v != nil {
 			v.Message = fmt.Sprintf("msg %d: %s", i, v.Message)
-			res.Viol = v
-			return
+			if !unanswered(v) {
+				res.Viol = v
+				return
+			}
+			pending = v
 		}
-		if v := m.validate(msg.Client, inner, objAns, wireAns); v != nil {
+		if v := m.validate(msg.Client, inner, objAns, wireAns); v != nil && pending == nil {
 			v.Message = fmt.Sprintf("msg %d: %s", i, v.Message)
-			res.Viol = v
+			if !unanswered(v) {
+				res.Viol = v
+				return
+			}
+			pending = v
+		} else if v != nil && v.Signature != "C08/iapd-correspondence" {
+			// the reply is malformed in some other way as well: nothing more to learn from it
+			res.Viol = pending
 			return
 		}
 		// ---- C09: evaluated against what the client held before this message
@@ -588,11 +607,25 @@ func Exec(c Case) (res core.Result) {
 					break
 				}
 			}
+			hints := ria.Options.Prefixes()
+			hintless := len(hints) == 0 || (len(hints) == 1 && hints[0].Prefix == nil && isEmptyWireHint(wire, repeat, resolved, k))
+			if ans == nil && pending != nil && len(heldBefore) > 0 {
+				asksHeld := hintless
+				for _, hnt := range hints {
+					for j := range heldBefore {
+						if hnt.Prefix != nil && heldBefore[j].IP.Equal(hnt.Prefix.IP) && bytes.Equal(heldBefore[j].Mask, hnt.Prefix.Mask) {
+							asksHeld = true
+						}
+					}
+				}
+				if asksHeld {
+					res.Viol = core.Violate("C09/renewal-not-answered", "msg %d: client %d holds %d prefix(es) (%s ...); its IA_PD %x renews (no hint, or exactly a held prefix) and is not answered at all (%s)", i, msg.Client, len(heldBefore), heldBefore[0].String(), ria.IaId, pending.Signature)
+					return
+				}
+			}
 			if ans == nil {
 				continue
 			}
-			hints := ria.Options.Prefixes()
-			hintless := len(hints) == 0 || (len(hints) == 1 && hints[0].Prefix == nil && isEmptyWireHint(wire, repeat, resolved, k))
 			onlyRenewShapes := true
 			if hintless {
 				if len(heldBefore) > 0 {
@@ -674,6 +707,10 @@ func Exec(c Case) (res core.Result) {
 					}
 				}
 			}
+		}
+		if pending != nil {
+			res.Viol = pending
+			return
 		}
 		if v := m.record(msg.Client, wireAns, now); v != nil {
 			v.Message = fmt.Sprintf("msg %d: %s", i, v.Message)
